@@ -641,6 +641,11 @@ namespace avel {
     }
 
     [[nodiscard]]
+    AVEL_FINL vec8x32f byteswap(vec8x32f v) {
+        return bit_cast<vec8x32f>(byteswap(bit_cast<vec8x32u>(v)));
+    }
+
+    [[nodiscard]]
     AVEL_FINL vec8x32f max(vec8x32f a, vec8x32f b) {
         return vec8x32f{_mm256_max_ps(decay(b), decay(a))};
     }
